@@ -1,11 +1,14 @@
 import functools
 import inspect
 from typing import Any, Callable, Sequence, TypeAlias, SupportsFloat
+from sympy import S
 from sympy.physics.units import Quantity as SymQuantity, Dimension
 
 from .symbols.symbols import DimensionSymbol, Function, Symbol, IndexedSymbol
 from .operations.symbolic import Symbolic
 from .dimensions import assert_equivalent_dimension
+from .dimensions.miscellaneous import is_any_dimension
+from .vectors.vectors import QuantityVector
 
 _ValueType: TypeAlias = SupportsFloat | DimensionSymbol | Symbolic
 
@@ -24,6 +27,11 @@ def _assert_expected_unit(
     for item in values:
         if isinstance(item, SymQuantity):
             components.append(item)
+        elif isinstance(item, QuantityVector) and all(
+                is_any_dimension(c.scale_factor) for c in item.components):
+            # zero vector, like zero scalar, is compatible with any dimension. Its own dimension
+            # cannot be inferred from the components and is dimensionless.
+            components.append(S.Zero)
         elif isinstance(item, DimensionSymbol):
             components.append(item.dimension)
         elif isinstance(item, Symbolic):
